@@ -213,7 +213,8 @@ def check_cli(case):
         src = os.path.join(tmpdir, "bank.export")
         with open(src, "w", encoding="utf-8") as stream:
             stream.write(CT.encode_export(case["bank"]))
-        dest = os.path.join(tmpdir, "out")
+        # output prefixes ending in a dot or in letters of the format names are ordinary prefixes, too
+        dest = os.path.join(tmpdir, case.get("prefix", "out"))
         args = ["grammar", src, dest, mode["type"], "--src-format", "export", "--dest-format", fmt, "--dest-enc", enc]
         if mode.get("markov"):
             args += ["--markov", "v:%d" % mode["v"], "h:%d" % mode["h"]] + (["nofanout"] if mode.get("nofanout") else [])
@@ -222,7 +223,8 @@ def check_cli(case):
         gram, lex = in_memory(case["bank"], mode)
         exp_rules, exp_lex = totals(gram), plain_lex(lex)
         cf = all(len(lin) == 1 for (_f, lin) in exp_rules)
-        res = cli.run_sub(args)
+        run = cli.run_inproc if case.get("inproc") else cli.run_sub
+        res = run(args)
         if fmt == "lopar" and not cf:
             if res.code == 0:
                 raise violation(prefix + "/non-context-free-accepted", "exit 0")
@@ -232,7 +234,7 @@ def check_cli(case):
         check_files(prefix, fmt, dest, enc, exp_rules, exp_lex, bool(case.get("lex_in_grammar")))
         if fmt == "rcg" and not case.get("lex_in_grammar"):
             dest2 = os.path.join(tmpdir, "again")
-            res = cli.run_sub(["grammar", dest, dest2, "treebank", "--src-format", "rcg", "--src-enc", enc, "--dest-format", "rcg", "--dest-enc", enc])
+            res = run(["grammar", dest, dest2, "treebank", "--src-format", "rcg", "--src-enc", enc, "--dest-format", "rcg", "--dest-enc", enc])
             if res.code != 0:
                 raise violation("C09/cli-grammar-input/exit-status", "exit %d: %s" % (res.code, res.err[-400:]))
             try:
@@ -267,7 +269,8 @@ def api_case(draw, max_tokens):
     disc = 0.6 if fmt != "lopar" else draw(st.sampled_from([0.0, 0.0, 0.0, 0.6]))
     mode = draw(st.sampled_from(all_modes()[:3])) if draw(st.booleans()) else draw(st.sampled_from(all_modes()))
     return {"fmt": fmt, "bank": draw(bank_strategy(max_tokens, disc)), "mode": mode, "enc": draw(st.sampled_from(["utf-8", "utf-8", "latin-1"])),
-            "lex_in_grammar": fmt != "lopar" and draw(st.integers(0, 2)) == 0}
+            "lex_in_grammar": fmt != "lopar" and draw(st.integers(0, 2)) == 0,
+            "prefix": draw(st.sampled_from(["out", "g", "grammar", "tiger", "neg.train", "corpus.rcg", "gram", "lopar.", "x_pmcfg"]))}
 
 
 def classify(case, exp_rules, exp_lex, status):
@@ -308,5 +311,18 @@ def gen_cli(ctx):
             smaller=lambda c: [dict(c, bank=c["bank"][:i] + c["bank"][i + 1:]) for i in range(len(c["bank"])) if len(c["bank"]) > 1])
 
 
+def gen_cli_inproc(ctx):
+    """the same command line through runpy in this process: many more cases, and every case runs after the earlier ones
+    (other formats, options, encodings) in one interpreter"""
+    quick = ctx.tier == "quick"
+
+    def body(case):
+        status = check_cli(case)
+        ctx.count(key=case, nontrivial=True, classes=["cli-inproc:fmt=" + case["fmt"], "cli-inproc:" + status])
+    ctx.hyp(api_case(6).map(lambda c: dict(c, inproc=True)), body, max_examples=60 if quick else 600, shrink=False,
+            smaller=lambda c: [dict(c, bank=c["bank"][:i] + c["bank"][i + 1:]) for i in range(len(c["bank"])) if len(c["bank"]) > 1])
+
+
 UNITS = [Unit("api", gen_api, check_api, shards=(4, 16)),
-         Unit("cli", gen_cli, check_cli, shards=(4, 8))]
+         Unit("cli", gen_cli, check_cli, shards=(4, 8)),
+         Unit("cli_inproc", gen_cli_inproc, check_cli, shards=(4, 8))]
